@@ -2,7 +2,7 @@
    All statements are for arbitrary candidate lists and parameters: induction over the lists.
    Lemmas cited by other properties (C01): make_batch_batch_nodup, make_batch_rest_disjoint,
    submit_round_disjoint, batch_index_fresh, submit_round_slots (also: make_batch_contract, make_batch_cover,
-   submit_round_inv, submit_round_batches, submit_round_maximal, submit_round_fuel, round_batch_*). *)
+   submit_round_inv, submit_round_batches, submit_round_maximal, submit_round_fuel, the round_batch lemmas). *)
 From Coq Require Import List ZArith NArith Bool Arith Lia Permutation.
 From Jade Require Import Base Batch.
 From Jade.Gen Require Import BatchGen.
